@@ -1,8 +1,6 @@
 package erange
 
 import (
-	"math/big"
-
 	"golang.org/x/tools/go/ssa"
 )
 
@@ -198,5 +196,3 @@ func wideOf(v Value) (*Wide, tagKind) {
 	}
 	return nil, 0
 }
-
-var _ = big.NewInt
